@@ -3,6 +3,7 @@ package twig
 import (
 	"errors"
 	"runtime"
+	"strconv"
 )
 
 // C01: rendering is repeatable and independent of everything rendered before. Public API only.
@@ -364,4 +365,74 @@ func VH_C01_Global() {
 		symAssert(err == nil, "model-no-error")
 		symAssert(got == g.want(x, sh), "agrees-with-model")
 	}
+}
+
+// ---- C01.shared: a *Template object known to more than one engine ----------------------------------
+// ParseTemplate / Load hand out *Template objects and RegisterTemplate accepts them, so the same
+// object can be registered with several engines. What engine A renders for it must not depend on
+// what other engines did with the object.
+func vhC01SharedEngine(tag string) *Engine {
+	e := New()
+	e.RegisterString("inc", "i"+tag+"{{ x }}")
+	e.RegisterString("base", "B"+tag+"<{% block b %}{% endblock %}>")
+	e.AddFilter("mark", func(v interface{}, a ...interface{}) (interface{}, error) { return "m" + tag, nil })
+	e.AddGlobal("g", "g"+tag)
+	return e
+}
+
+var vhC01SharedSrc = []string{
+	"[{% include 'inc' %}|{{ x|mark }}|{{ g }}]",
+	"{% extends 'base' %}{% block b %}{{ x|mark }}{% endblock %}",
+	"{{ include('inc') }}{{ x }}",
+}
+
+func VH_C01_Shared() {
+	h := symParam("H", 2)
+	k := symChoice(len(vhC01SharedSrc))
+	x := symStringIn(1, vhValAlphabet)
+	ctx := map[string]interface{}{"x": x}
+	// reference: an engine that is alone in the process
+	ref := vhC01SharedEngine("A")
+	rt, err := ref.ParseTemplate(vhC01SharedSrc[k])
+	if err != nil {
+		symAssert(false, "template-parses")
+		return
+	}
+	ref.RegisterTemplate("t", rt)
+	fresh := vhRender(ref, "t", ctx)
+	a, b := vhC01SharedEngine("A"), vhC01SharedEngine("B")
+	tp, _ := a.ParseTemplate(vhC01SharedSrc[k])
+	a.RegisterTemplate("t", tp)
+	tag := "src:" + strconv.Itoa(k) + " hist:"
+	for i := 0; i < h; i++ {
+		switch symChoice(7) {
+		case 0:
+			tag += "-"
+		case 1: // the same object registered with another engine, under the same name
+			b.RegisterTemplate("t", tp)
+			tag += "S"
+		case 2: // ... under another name
+			b.RegisterTemplate("u", tp)
+			tag += "U"
+		case 3: // the other engine renders what it has
+			vhRender(b, "t", ctx)
+			vhRender(b, "u", ctx)
+			tag += "r"
+		case 4: // rendered through the object itself
+			tp.Render(ctx)
+			tag += "d"
+		case 5: // a third, short-lived engine takes it too
+			vhC01SharedEngine("C").RegisterTemplate("t", tp)
+			tag += "C"
+		case 6: // engine A renders it
+			vhRender(a, "t", ctx)
+			tag += "a"
+		}
+	}
+	symTag(tag)
+	got := vhRender(a, "t", ctx)
+	symCover("rendered")
+	symAssert(got == fresh, "shared-template-renders-as-on-a-fresh-engine")
+	o2, e2 := tp.Render(ctx)
+	symAssert(vhResult{o2, e2 != nil} == fresh, "template-object-renders-as-on-a-fresh-engine")
 }
